@@ -20,6 +20,7 @@ package hash
 // function of the value for which EqC(T, x, y) ==> HashSpec(T, x) == HashSpec(T, y);
 // that such a function exists is exactly what the relational clause proves.
 //@ func (g *gen) field(fieldName string, fieldType types.Type) (s string, err error)
+//@ thorough-arity: 4
 //@ abstract: expr classes=Call,Sum
 //@ param fieldName: classes=Primary,Star,Amp type=fieldType
 //@ emits: expr
@@ -31,6 +32,7 @@ package hash
 //@ o-rel-ensures: [respects-Equal] r@1 == r@2
 
 //@ func (g *gen) genStatement(o string, typ types.Type) (err error)
+//@ thorough-arity: 4
 //@ abstract: stmt returns
 //@ param o: classes=Ident type=typ
 //@ emits: stmts
@@ -47,6 +49,7 @@ package hash
 //@ o-rel-loop: when kind(typ)=Map 1: invariant h@1 == h@2 && sortedKeysOf(key(typ), o@1, Ħx1) && sortedKeysOf(key(typ), o@2, Ħx2)
 
 //@ func (g *gen) genFunc(typs []types.Type) (err error)
+//@ thorough-arity: 4
 //@ param typs: len=1
 //@ emits: decls
 //@ serves: hash len=1 typs=typs
